@@ -193,6 +193,16 @@ func genMetaPlan(c *Chooser, p *RPCPlan, binMode int) {
 		op := Op{Kind: kind, MD: genMDMode(c, 3, binMode)}
 		ops = append(ops[:at], append([]Op{op}, ops[at:]...)...)
 	}
+	// now and then (by plan id) a header or trailer value larger than a frame
+	// of message data may be: metadata frames are not chunked, and must arrive
+	if p.ID%5 == 2 {
+		for i := range ops {
+			if (ops[i].Kind == OpSetHeader || ops[i].Kind == OpSetTrailer) && ops[i].MD != nil {
+				ops[i].MD["sim-large"] = []string{strings.Repeat("L", 20000+p.ID)}
+				break
+			}
+		}
+	}
 	// repeated SetHeader / SetTrailer calls often mention the same key again:
 	// the values accumulate in call order (no draw: the second call of a kind
 	// takes over one key of the first)
@@ -493,6 +503,7 @@ func OracleC02(w *World, h *History) {
 				for k, v := range p.Creds.MD {
 					exp.Append(k, v)
 				}
+				exp.Append("cred-call", "call-"+strconv.Itoa(p.ID))
 			}
 			if !mdEqual(exp, hr.Info.ReqMD) {
 				w.AddViolation("C02", "request-md-mismatch", fmt.Sprintf("rpc %d: handler saw request metadata %s, caller attached %s", id, mdString(hr.Info.ReqMD), mdString(exp)),
